@@ -75,7 +75,12 @@ class CyclicTask:
 
 class ModifiableCyclicTask(CyclicTask):
     def modify_data(self, msg):
-        self.snapshot = (self.snapshot[0], self.snapshot[1], self.snapshot[2], _copy(msg.data))
+        # python-can: the new message replaces the old one (same arbitration id required); its format and
+        # remote flags are the ones transmitted from now on
+        if not bool(msg.arbitration_id == self.snapshot[0]):
+            raise ValueError("The arbitration ID of new cyclic messages cannot be changed from when the task was "
+                             "created")
+        self.snapshot = (msg.arbitration_id, msg.is_extended_id, msg.is_remote_frame, _copy(msg.data))
 
 
 class BusABC:
